@@ -316,8 +316,9 @@ class Engine:
                     reader = AudioReader(inp, block_dur=bd, hop_dur=hd,
                                          record=record, max_read=max_read,
                                          **kw)
-            except ValueError as e:
-                trace.append(["construct", "ValueError", str(e)[:80]])
+            except Exception as e:
+                # "rejected with an error": any exception type counts
+                trace.append(["construct", type(e).__name__, str(e)[:80]])
                 if expect_err is None:
                     return V(prop + ".1", "constructor rejected valid "
                              "block_dur=%r hop_dur=%r (block %r hop %r "
